@@ -197,18 +197,6 @@ Definition compound_unambiguous (c : conv) (u : universe) (v : value) : bool :=
                     | _ => true
                     end) (objects_of v).
 
-(* 5. an empty-text AnyElement / wildcard corner: none here; placeholder for tuple fields *)
-Fixpoint no_tuples (v : value) : bool :=
-  let fix nl (l : list value) : bool := match l with [] => true | x :: r => no_tuples x && nl r end in
-  let fix nf (l : list (str * value)) : bool := match l with [] => true | (_, x) :: r => no_tuples x && nf r end in
-  match v with
-  | VList t l => negb t && nl l
-  | VObj _ fs => nf fs
-  | VAny _ _ _ _ ch => nl ch
-  | VDerived _ x _ => no_tuples x
-  | _ => true
-  end.
-
 (* 6. strictly JSON: finite floats *)
 Definition finite_float (r : str) : bool :=
   negb (str_eqb r [110;97;110] || str_eqb r [105;110;102] || str_eqb r [45;105;110;102]).
@@ -348,7 +336,7 @@ Definition agree_json_decode (uk : universe * dc_case) : bool :=
   | Err _ => true
   end.
 
-(* the defect clauses this case violates: 1 keys 2 null-default 3 best-match 4 compound 5 tuples *)
+(* the defect clauses this case violates: 1 keys 2 null-default 3 best-match 4 compound 7 generic keys *)
 Definition clauses_failing (uk : universe * dc_case) : list N :=
   let '(u, k) := uk in
   let v := dc_value k in
@@ -356,7 +344,6 @@ Definition clauses_failing (uk : universe * dc_case) : list N :=
   ++ (if match dc_factory k with FDict => no_null_default u v | FFilterNone => true end then [] else [2])
   ++ (if no_best_match u v then [] else [3])
   ++ (if compound_unambiguous (conv_of_table (dc_table k)) u v then [] else [4])
-  ++ (if no_tuples v then [] else [5])
   ++ (if match dc_factory k with FFilterNone => generics_complete v | FDict => true end then [] else [7]).
 
 Definition in_guard (uk : universe * dc_case) : bool :=
@@ -392,7 +379,7 @@ Definition has_wrapper_object (u : universe) (v : value) : bool :=
 
 (* attribution of a failing round trip outside the guard (first match wins, in this order):
    10 best-match tie (set order), 1 key collision, 2 null -> default, 4 compound choice shadowed,
-   5 tuple field (DictDecoder on the in-memory tuple; the JSON text pair must hold), 7 generic keys filtered,
+ 7 generic keys filtered,
    12 class guessed by bind_best_dataclass (no type marker in JSON), 0 unexplained *)
 Definition failure_class (uk : universe * dc_case) : N :=
   let '(u, k) := uk in
@@ -404,7 +391,6 @@ Definition failure_class (uk : universe * dc_case) : N :=
        | 2 :: _ => 2
        | l =>
            if existsb (N.eqb 4) l then 4
-           else if existsb (N.eqb 5) l && roundtrip_json_ok uk then 5     (* only the in-memory pair fails *)
            else if existsb (N.eqb 7) l then 7
            else if existsb (N.eqb 3) l then 12
            else 0
